@@ -46,7 +46,9 @@ MIN_COUNTERS = {'dbscan_catalogues': 40, 'dbscan_runs': 400, 'dbscan_links_check
                 'resize_ratio1_with_helper_psf_differs_sources': 20, 'resize_larger_ratio_with_helper_sources': 30,
                 'aereg_runs': 8, 'priorized_runs': 8, 'aereg_runs_with_ratio': 8,
                 'aereg_runs_with_psfheader': 4, 'aereg_runs_with_noregroup': 3, 'aereg_runs_with_debug': 3,
-                'threshold_pairs_judged_aereg_rescaled': 100, 'aereg_noregroup_rows_checked': 50}
+                'threshold_pairs_judged_aereg_rescaled': 100, 'aereg_noregroup_rows_checked': 50,
+                'aereg_rows_dropped': 100, 'aereg_dropped_group_members': 80, 'aereg_dropped_bridges': 30,
+                'aereg_dropped_brightest_of_group': 20}
 BATCHES_PER_JOB = 4
 
 REL_BAND = 1e-9
@@ -651,16 +653,80 @@ def _count_entry_pairs(o, orc, theta, which):
     o.count('threshold_pairs_judged_' + which, int(near.sum()))
 
 
+def _dropper_catalogue(rng, theta, base=None):
+    """structures in which one source is one the tool must DROP when rescaling: bridges of chains, members of
+    multi-source groups (brightest / middle / faintest), one of a pair, isolated sources; plus intact structures.
+    -> ra, dec, flux, drop (bool per row)"""
+    if base is None:
+        base = (float(rng.uniform(0, 360)), float(rng.uniform(-30, 10)))
+    # (offsets along a line in units of theta, index of the dropped row or None, flux ranks (0 = brightest))
+    blocks = [
+        ([-0.8, 0.0, 0.8], 1, [1, 0, 2]),             # A - B - C, bridge B dropped (and brightest)
+        ([-0.8, 0.0, 0.8], 1, [0, 2, 1]),             # bridge dropped, faintest
+        ([-1.6, -0.8, 0.0, 0.8, 1.6], 2, [3, 1, 0, 2, 4]),   # 5-chain, middle dropped -> two pairs
+        ([-1.6, -0.8, 0.0, 0.8, 1.6], 1, [0, 1, 2, 3, 4]),   # second of five dropped -> single + triple
+        ([-0.3, 0.0, 0.3], 0, [0, 1, 2]),             # compact triple, brightest dropped
+        ([-0.3, 0.0, 0.3], 1, [0, 1, 2]),             # compact triple, middle flux dropped
+        ([-0.3, 0.0, 0.3], 2, [0, 1, 2]),             # compact triple, faintest dropped
+        ([0.0, 0.5], 0, [0, 1]),                      # pair, brighter dropped
+        ([0.0, 0.5], 1, [0, 1]),                      # pair, fainter dropped
+        ([-0.8, 0.0, 0.8], 0, [2, 0, 1]),             # end of a chain dropped
+        ([0.0], 0, [0]),                              # isolated dropped source
+        ([0.0], None, [0]),                           # isolated survivor
+        ([-0.8, 0.0, 0.8], None, [1, 0, 2]),          # intact chain
+        ([0.0, 0.5], None, [1, 0]),                   # intact pair
+        ([0.0, 1.3], None, [0, 1]),                   # two singles 1.3 theta apart
+        ([0.0, 0.9, 1.8, 2.7], 2, [0, 1, 2, 3]),      # 4-chain, third dropped -> pair + single
+    ]
+    order = rng.permutation(len(blocks))
+    cols = 4
+    ra, dec, flux, drop = [], [], [], []
+    for slot, bi in enumerate(order):
+        offs, dk, ranks = blocks[bi]
+        j, i = divmod(slot, cols)
+        d0 = base[1] + j * 8.0 * theta
+        r0 = (base[0] + i * 8.0 * theta / np.cos(np.radians(d0))) % 360.0
+        pa = float(rng.uniform(0, 180))
+        f0 = float(np.exp(rng.normal(0, 1)))
+        for k, x in enumerate(offs):
+            r1, d1 = sphere.destination(r0, d0, abs(x) * theta, pa if x >= 0 else pa + 180.0)
+            ra.append(float(r1) % 360.0)
+            dec.append(float(d1))
+            flux.append(f0 * (10.0 - ranks[k]))
+            drop.append(dk is not None and k == dk)
+    return np.array(ra), np.array(dec), np.array(flux), np.array(drop)
+
+
 def _run_aereg(o, case):
     from astropy.io import ascii
     from AegeanTools.CLI import AeReg
     rng = rng_for(*case['seed'])
-    ra, dec, flux, theta = _entry_catalogue(case, rng)
+    theta = case['eps_arcmin'] / 60.0
+    droppers = case.get('droppers')            # None | 'nan' | 'compact' | 'zero' | 'negative' | 'zero_b'
+    if droppers:
+        ra, dec, flux, drop = _dropper_catalogue(rng, theta)
+    else:
+        ra, dec, flux, theta = _entry_catalogue(case, rng)
+        drop = np.zeros(len(ra), dtype=bool)
     n = len(ra)
     nopsf = case.get('nopsf', False)
     srcs = _sources(ra, dec, flux, rng, psf='nan' if nopsf else 'known')
-    for s in srcs:
+    for k, s in enumerate(srcs):
         s.ra_str, s.dec_str = '00:00:00.00', '+00:00:00.00'
+        if droppers:
+            # survivors are comfortably larger than the catalogue psf (30" x 20"), so that they survive any ratio >= 0.3
+            s.a, s.b = float(rng.uniform(120, 200)), float(rng.uniform(80, 110))
+            if drop[k]:
+                if droppers == 'nan':
+                    s.psf_a = s.psf_b = s.psf_pa = float('nan')
+                elif droppers == 'compact':
+                    s.a, s.b = float(rng.uniform(31, 40)), float(rng.uniform(21, 26))     # barely above the psf
+                elif droppers == 'zero':
+                    s.psf_a, s.psf_b = 0.0, 0.0
+                elif droppers == 'negative':
+                    s.psf_a = -30.0
+                elif droppers == 'zero_b':
+                    s.psf_b = 0.0
     work = scratch_dir()
     try:
         ext = case.get('ext', 'csv')
@@ -690,10 +756,24 @@ def _run_aereg(o, case):
             argv = argv[4:] + argv[:4]
         shown = ' '.join(a if not a.startswith(work) else os.path.basename(a) for a in argv if a not in (inp, out, '--input', '--table'))
         ctx = {'entry': 'AeReg', 'argv': shown, 'eps_arcmin': case['eps_arcmin'], 'psf_columns': not nopsf}
+        if droppers:
+            ctx['rows_to_drop'] = droppers
         for opt in ('--ratio', '--psfheader', '--noregroup', '--debug'):
             if opt in argv:
                 o.count('aereg_runs_with_' + opt.lstrip('-'))
-        shapes_may_change = psfheader or (ratio is not None and ratio != 1)
+        ratio_used = ratio if (ratio is not None and not psfheader) else None
+        shapes_may_change = psfheader or (ratio_used is not None and ratio_used != 1)
+        known = np.array([np.isfinite(s.psf_a) and np.isfinite(s.psf_b) for s in srcs])
+        # rows that must be written (only what the statement / the documented exclusions give):
+        if not shapes_may_change:
+            must = np.ones(n, dtype=bool)                    # no rescaling, or ratio 1 = identity
+        elif psfheader:
+            must = known & np.array([s.psf_a > 0 and s.psf_b > 0 for s in srcs])   # documented exclusions: psf <= 0 / unknown
+        elif ratio_used > 1:
+            must = known                                     # a larger ratio never shrinks (so never loses) a source
+        else:
+            must = np.zeros(n, dtype=bool)                   # ratio < 1: only what is written is judged
+        mech = 'resize-unknown-psf' if (nopsf and ratio == 1) else None
         try:
             with warnings.catch_warnings():
                 warnings.simplefilter('ignore')
@@ -701,40 +781,52 @@ def _run_aereg(o, case):
         except BaseException as e:
             if isinstance(e, (KeyboardInterrupt, MemoryError)):
                 raise
-            o.violate('raises', dict(ctx, n=n, traceback=traceback.format_exc()[-600:]),
-                      'resize-unknown-psf' if (nopsf and case.get('ratio') == 1) else None)
+            o.violate('raises', dict(ctx, n=n, traceback=traceback.format_exc()[-600:]), mech)
             return
         o.n_eval += 1
         o.count('aereg_runs')
         res = os.path.join(work, 'out_comp.csv')
         if rc != 0 or not os.path.exists(res):
-            o.violate('no_output', dict(ctx, returncode=rc, files=sorted(os.listdir(work))),
-                      'resize-unknown-psf' if (nopsf and case.get('ratio') == 1) else None)
+            o.violate('no_output', dict(ctx, returncode=rc, files=sorted(os.listdir(work))), mech)
             return
         t = ascii.read(res)
-        byid = {str(u): k for k, u in enumerate(t['uuid'])}
-        if sorted(byid) != sorted(s.uuid for s in srcs) or len(t) != n:
-            o.violate('rows_lost_or_duplicated', dict(ctx, written=n, read=len(t)),
-                      'resize-unknown-psf' if (nopsf and case.get('ratio') == 1) else None)
+        uu = [str(u) for u in t['uuid']]
+        byid = {u: k for k, u in enumerate(uu)}
+        inputs = {s.uuid: k for k, s in enumerate(srcs)}
+        missing = [k for k in range(n) if must[k] and srcs[k].uuid not in byid]
+        if len(byid) != len(uu) or any(u not in inputs for u in uu) or missing:
+            o.violate('rows_lost_or_duplicated', dict(ctx, written=n, read=len(t), must_be_written_but_missing=missing[:5]), mech)
             return
-        # rebuild the groups from the island numbers of the output table
+        # ---- from here on the WRITTEN table alone is judged
+        W = np.array([k for k in range(n) if srcs[k].uuid in byid], dtype=int)
+        o.count('aereg_rows_written', len(W))
+        o.count('aereg_rows_dropped', n - len(W))
+        if droppers:
+            o.see('aereg_dropper_kinds', '%s with %s' % (droppers, '--psfheader' if psfheader else '--ratio %s' % ratio))
+        if len(W) == 0:
+            raise RuntimeError('harness: every row was dropped, nothing to judge')
+
         class Row:
             pass
         rows = []
-        for s in srcs:
+        for k in W:
+            s = srcs[k]
             r = Row()
-            k = byid[s.uuid]
-            r.island, r.source, r.peak_flux = int(t['island'][k]), int(t['source'][k]), float(t['peak_flux'][k])
+            q = byid[s.uuid]
+            r.island, r.source, r.peak_flux = int(t['island'][q]), int(t['source'][q]), float(t['peak_flux'][q])
             rows.append(r)
             for nm in names:
                 if nm in ('island', 'source'):
                     continue
-                v, w = getattr(s, nm), t[nm][k]
+                v, w = getattr(s, nm), t[nm][q]
                 same = (str(w) == v) if isinstance(v, str) else (float(w) == float(v) or (v != v and not np.isfinite(float(w))))
                 if nm in ('a', 'b') and shapes_may_change:
                     # rescaling is allowed to change the shape; a ratio > 1 (used, i.e. without --psfheader) never shrinks
-                    if not psfheader and ratio > 1 and not float(w) >= v * (1 - 1e-12):
+                    if ratio_used is not None and ratio_used > 1 and not float(w) >= v * (1 - 1e-12):
                         o.violate('larger_ratio_shrinks', dict(ctx, attribute=nm, before=repr(v), after=repr(w)))
+                        return
+                    if not np.isfinite(float(w)):
+                        o.violate('non_finite_shape_written', dict(ctx, attribute=nm, before=repr(v), after=repr(w)))
                         return
                     continue
                 if not same and not (nm in ('a', 'b') and abs(float(w) - v) <= 1e-12 * v):
@@ -742,28 +834,47 @@ def _run_aereg(o, case):
                     return
         if not regrouping:
             # --noregroup: the labels of the input catalogue are kept
-            for s, r in zip(srcs, rows):
+            for k, r in zip(W, rows):
+                s = srcs[k]
                 if (r.island, r.source) != (s.island, s.source):
                     o.violate('noregroup_changes_labels', dict(ctx, before=[s.island, s.source], after=[r.island, r.source]))
                     return
-            o.count('aereg_noregroup_rows_checked', n)
+            o.count('aereg_noregroup_rows_checked', len(W))
             o.n_nontrivial += 1
-            o.sample = {'argv': shown, 'n': n}
+            o.sample = {'argv': shown, 'n': n, 'written': len(W)}
             return
+        # rebuild the groups from the island numbers of the written table; oracle over the written rows only
         gd = {}
         for r in rows:
             gd.setdefault(r.island, []).append(r)
         groups = list(gd.values())
-        orc = _oracle(ra, dec, theta)
+        raW, decW = ra[W], dec[W]
+        orc = _oracle(raW, decW, theta)
         _count_entry_pairs(o, orc, theta, 'aereg')
         if shapes_may_change:
             _count_entry_pairs(o, orc, theta, 'aereg_rescaled')
+        if len(W) < n:
+            # what the dropped rows were: members of multi-source groups, bridges whose removal splits a group
+            full = _oracle(ra, dec, theta)[0]
+            sub = dict(zip(W.tolist(), orc[0].tolist()))
+            for k in range(n):
+                if k in sub:
+                    continue
+                mates = [m for m in np.flatnonzero(full == full[k]).tolist() if m != k]
+                if mates:
+                    o.count('aereg_dropped_group_members')
+                    if len(set(sub[m] for m in mates if m in sub)) > 1:
+                        o.count('aereg_dropped_bridges')
+                    brightest = all(flux[k] > flux[m] for m in mates)
+                    if brightest:
+                        o.count('aereg_dropped_brightest_of_group')
         # _judge_partition identifies sources by object identity: use the Row objects
-        subj = _judge_partition(o, groups, rows, ra, dec, theta, orc, ctx, 'aereg')
+        ctxw = dict(ctx, rows_written=len(W), rows_in_input=n)
+        subj = _judge_partition(o, groups, rows, raW, decW, theta, orc, ctxw, 'aereg')
         if subj is not None:
-            _judge_numbering(o, groups, ctx)
+            _judge_numbering(o, groups, ctxw)
         o.n_nontrivial += 1
-        o.sample = {'argv': shown, 'n': n, 'groups': len(groups), 'oracle_groups': len(set(orc[0].tolist()))}
+        o.sample = {'argv': shown, 'n': n, 'written': len(W), 'groups': len(groups), 'oracle_groups': len(set(orc[0].tolist()))}
     finally:
         shutil.rmtree(work, ignore_errors=True)
 
@@ -872,6 +983,20 @@ def cases(seed, tier):
                 'seed': [0, 'aereg', 'noregroup', 'psfh']})
     out.append({'kind': 'aereg', 'eps_arcmin': 10.0, 'offsets': OFFSETS, 'ratio': 2.0, 'debug': True, 'options_first': True,
                 'ext': 'tab', 'seed': [0, 'aereg', 'ratio', 'debug']})
+    # rows the tool must DROP when rescaling (unknown psf, psf <= 0, too compact for a ratio < 1), placed as bridges
+    # of chains and inside multi-source groups: the written table alone must be a correct regrouping
+    for e in (1.0, 4.0):
+        for dr, opts in (('nan', {'ratio': 2.0}), ('nan', {'ratio': 0.5}), ('compact', {'ratio': 0.5}),
+                         ('compact', {'ratio': 0.7}), ('zero', {'psfheader': True}), ('negative', {'psfheader': True}),
+                         ('zero_b', {'psfheader': True, 'ratio': 2.0}), ('compact', {'ratio': 2.0}),
+                         ('nan', {'ratio': 1.0}), ('zero', {'ratio': 3.0}), ('compact', {'ratio': 0.5, 'noregroup': True}),
+                         ('nan', {})):
+            c = {'kind': 'aereg', 'eps_arcmin': e, 'droppers': dr, 'seed': [0, 'aereg', 'drop', e, dr, sorted(opts.items())]}
+            c.update(opts)
+            out.append(c)
+    # ratio < 1 on the ordinary threshold catalogues (only what is written is judged)
+    for e in (0.5, 4.0, 30.0):
+        out.append({'kind': 'aereg', 'eps_arcmin': e, 'offsets': OFFSETS, 'ratio': 0.8, 'seed': [0, 'aereg', 'ratio<1', e]})
     out.append({'kind': 'priorized', 'eps_arcmin': 4.0, 'offsets': OFFSETS, 'nopsf': True, 'seed': [0, 'priorized', 'nopsf']})
     for th_arcmin in (0.001, 0.01, 0.1, 1.0, 4.0, 30.0, 120.0, 600.0):
         # API level, kd-tree regime (> 11 rows) and tiny catalogues (<= 11 rows)
@@ -935,6 +1060,11 @@ def cases(seed, tier):
                     'ratio': [float(rng.uniform(1.0, 6.0)), None, float(rng.uniform(1.0, 2.0))][k % 3],
                     'psfheader': k % 3 == 1, 'noregroup': k % 5 == 4, 'debug': bool(k % 2),
                     'seed': [seed, 'aereg-opt', k]})
+        dr = ['nan', 'compact', 'zero', 'negative', 'zero_b'][k % 5]
+        out.append({'kind': 'aereg', 'eps_arcmin': float(10 ** rng.uniform(-0.5, 0.8)), 'droppers': dr,
+                    'ratio': None if dr in ('zero', 'negative', 'zero_b') else float(rng.choice([0.4, 0.6, 0.9, 1.5, 4.0])
+                                                                                     if dr == 'nan' else rng.uniform(0.35, 0.8)),
+                    'psfheader': dr in ('zero', 'negative', 'zero_b'), 'seed': [seed, 'aereg-drop', k]})
         out.append({'kind': 'priorized', 'eps_arcmin': e, 'offsets': offs, 'seed': [seed, 'prio-r', k]})
     return out
 
